@@ -265,14 +265,17 @@ class Ctx:
         self.impl_bin = None
         self.model_bin = os.path.join(BUILD, "ocaml", prop, "model_" + prop)
 
+        self.impl_bins = {}     # component name -> binary (components may use another harness crate)
+        self.model_bins = {}    # component name -> extracted model binary of another family
+
     def impl(self, comp, lines):
-        return run_sharded([self.impl_bin, comp], lines)
+        return run_sharded([self.impl_bins.get(comp, self.impl_bin), comp], lines)
 
     def model(self, comp, lines):
-        return run_sharded([self.model_bin, "run", comp], lines)
+        return run_sharded([self.model_bins.get(comp, self.model_bin), "run", comp], lines)
 
     def judge(self, comp, lines, outs):
-        return run_sharded([self.model_bin, "judge", comp], ["%s | %s" % (a, b) for a, b in zip(lines, outs)])
+        return run_sharded([self.model_bins.get(comp, self.model_bin), "judge", comp], ["%s | %s" % (a, b) for a, b in zip(lines, outs)])
 
 
 def shrink(ctx, comp, case, still_bad, valid):
@@ -453,8 +456,12 @@ def check(prop, tier, seed, replay=None):
     # 2. proofs
     props_file = cfg["props_file"]
     thms, prints = theorems_in(props_file)
-    targets = [props_file[:-2] + ".vo"] + [t for t in cfg.get("coq_extra_targets", [])]
-    force = [props_file]
+    extra_props = [f for f in cfg.get("extra_props_files", []) if os.path.exists(os.path.join(COQ, f))]
+    for f in extra_props:
+        t2, p2 = theorems_in(f)
+        thms += t2; prints += p2
+    targets = [props_file[:-2] + ".vo"] + [f[:-2] + ".vo" for f in extra_props] + [t for t in cfg.get("coq_extra_targets", [])]
+    force = [props_file] + extra_props
     if tier == "thorough":
         pass
     rc, out, cmd = coq_build(targets, force=force)
@@ -462,7 +469,7 @@ def check(prop, tier, seed, replay=None):
     nprint, axioms = parse_assumptions(out)
     allowed = set(cfg.get("axioms_allowed", []))
     bad_axioms = [a for a in axioms if a not in allowed]
-    closure = sorted(set(coq_closure(props_file) + (coq_closure(cfg['extract_target'][:-1]) if cfg.get('extract_target') else [])))
+    closure = sorted(set(coq_closure(props_file) + sum([coq_closure(f) for f in extra_props], []) + (coq_closure(cfg['extract_target'][:-1]) if cfg.get('extract_target') else []) + sum([coq_closure('extract/Ex_%s.v' % c['ocaml']) for c in cfg['components'] if c.get('ocaml')], [])))
     tokens = forbidden_tokens(closure)
     obligations = len(thms) + len(prints) + len(consts) + 1   # theorems + assumption reports + generated constants + token scan
     discharged = 0
@@ -525,6 +532,32 @@ def check(prop, tier, seed, replay=None):
             broken.append("harness %s does not build against the current source (hooks on)" % crate)
             log.append(o5[-3000:])
 
+    # 4b. components that live in another harness crate / another extracted model family
+    usable = []
+    for comp in cfg["components"]:
+        ok = True
+        if comp.get("harness"):
+            crate2, bin2 = comp["harness"]
+            rc6, o6 = build_harness(crate2, binname=bin2)
+            b2 = os.path.join(TARGET, "release", bin2)
+            if rc6 != 0 or not os.path.exists(b2) or ("error" in o6 and "could not compile" in o6):
+                ok = False
+                broken.append("harness %s/%s does not build against the current source" % (crate2, bin2))
+                log.append(o6[-3000:])
+            ctx.impl_bins[comp["name"]] = b2
+        if comp.get("ocaml"):
+            fam = comp["ocaml"]
+            rc7, o7, _ = coq_build(["extract/Ex_%s.vo" % fam])
+            if rc7 == 0:
+                rc7, o7 = build_ocaml(fam)
+            if rc7 != 0:
+                ok = False
+                broken.append("extracted model family %s does not build" % fam)
+                log.append(o7[-2000:])
+            ctx.model_bins[comp["name"]] = os.path.join(BUILD, "ocaml", fam, "model_" + fam)
+        if ok:
+            usable.append(comp)
+
     # 5. correspondence + judgement
     if replay:
         rp = json.load(open(replay))
@@ -540,8 +573,10 @@ def check(prop, tier, seed, replay=None):
         print("replay file names no re-executable case (%s)" % rp.get("what"))
         return 1 if broken else 0
 
-    if corr_possible:
-        for comp in cfg["components"]:
+    if corr_possible or any(c.get("harness") for c in usable):
+        for comp in usable:
+            if not corr_possible and not (comp.get("harness") and (comp.get("ocaml") or not comp.get("model", True))):
+                continue
             problems += run_component(ctx, comp, stats)
         for extra in cfg.get("extra_checks", []):
             problems += extra(ctx, stats)
